@@ -1,4 +1,4 @@
-/- driver ops for the C19 cost model: costorder, costboc, costbocparse, costdict, costtl -/
+/- driver ops for the C19 cost model: costorder, costboc, costbocparse, costdict, costtl, costtlside, costbuild -/
 import TonVerif.Drv.Common
 import TonVerif.Model.Cost
 
@@ -37,6 +37,15 @@ def handleBoc (d : String) (fl : String) : String :=
     s!"ok {o.steps} {o.bytes} {o.cells} {o.refs} {hashWork g}"
   | _, _ => "bad-op"
 
+/-- constructing every cell once: `lvs` = hashes computed per cell (`.`-separated, as many as nodes) -/
+def handleBuild (d : String) (lvs : String) : String :=
+  match parseDag d, parseNatList lvs with
+  | some g, some l =>
+    let lv := fun v => l.getD v 1
+    let ok4 := if l.all (· ≤ 4) then "1" else "0"
+    s!"ok {buildSteps lv g} {buildBytes lv g} {cellBytes g} {g.length} {edges g} {hashWork g} {ok4}"
+  | _, _ => "bad-op"
+
 /-- calls of the pre-563b428 recursive order (exponential on shared chains: small inputs only) -/
 def handleOldOrder (d : String) : String :=
   match parseDag d with
@@ -70,7 +79,8 @@ def handleDict (d : String) (k : String) : String :=
   | some g, some keyLen =>
     let f := g.length + 1
     let root := g.length - 1
-    s!"ok {showDRes (dictParse g f root keyLen)} {showDRes (dictCalls g f root keyLen)} {treeSize g f root}"
+    let o := dictOut g f root keyLen
+    s!"ok {showDRes (dictParse g f root keyLen)} {showDRes (dictCalls g f root keyLen)} {treeSize g f root} {o.1} {o.2}"
   | _, _ => "bad-op"
 
 /-- field syntax: optional `cN?` then `fK` | `FK` (flags field, signed) | `UK` (flags field, unsigned) | `b1` | `b0` | `vS` | `vx` | `sS` | `sx` -/
@@ -132,14 +142,26 @@ def handleTl (t : String) (inputs : String) : String :=
       | _ => "bad")
     "ok " ++ ",".intercalate outs
 
+/-- side conditions of `c19_tl_total` for a table: `ids4`, the smallest `R ≤ 16` with `NoBareCycle tbl R`, max fields, `tlK` -/
+def handleTlSide (t : String) : String :=
+  match parseTable t with
+  | none => "bad-op"
+  | some tbl =>
+    let ids := if decide (Tl.Ids4 tbl) then "1" else "0"
+    match Tl.bareDepth? tbl 16 with
+    | none => s!"ok {ids} none {Tl.maxFields tbl} 0"
+    | some R => s!"ok {ids} {R} {Tl.maxFields tbl} {Tl.tlK tbl R}"
+
 def handle? (op : String) (args : List String) : Option String :=
   match op, args with
   | "costorder", [d] => some (handleOrder d)
   | "costoldorder", [d] => some (handleOldOrder d)
   | "costboc", [d, fl] => some (handleBoc d fl)
+  | "costbuild", [d, l] => some (handleBuild d l)
   | "costbocparse", [h] => some (handleBocParse h)
   | "costdict", [d, k] => some (handleDict d k)
   | "costtl", [t, i] => some (handleTl t i)
+  | "costtlside", [t] => some (handleTlSide t)
   | _, _ => none
 
 end Cost
